@@ -589,11 +589,22 @@ func (v *parser_) parseIntrinsic() (
 	}
 	_, token, ok = v.parseToken(ComplexToken, "")
 	if ok {
-		var complex_, err = stc.ParseComplex(token.GetValue(), 128)
-		if err != nil {
+		// The scanner's own expression splits the literal into its two floats,
+		// each of which may have its own sign: "(" float sign float "i)".
+		var text = token.GetValue()
+		var matches = Scanner().MatchToken(ComplexToken, text)
+		var realText = matches.GetValue(2)
+		var imaginaryText = matches.GetValue(3)
+		var sign = text[1+len(realText)]
+		var real_, realErr = stc.ParseFloat(realText, 64)
+		var imaginary, imaginaryErr = stc.ParseFloat(imaginaryText, 64)
+		if realErr != nil || imaginaryErr != nil {
 			v.rejectLiteral(token)
 		}
-		return complex_, token, true
+		if sign == '-' {
+			imaginary = -imaginary
+		}
+		return complex(real_, imaginary), token, true
 	}
 	_, token, ok = v.parseToken(FloatToken, "")
 	if ok {
